@@ -66,8 +66,14 @@ class TlcResult(object):
         return "\n".join(self.stdout.splitlines()[-n:])
 
     def as_dict(self):
-        return {"cmd": self.cmd, "generated": self.generated, "distinct": self.distinct,
-                "depth": self.depth, "wall_s": round(self.wall_s, 2), "returncode": self.returncode}
+        d = {"cmd": self.cmd, "generated": self.generated, "distinct": self.distinct,
+             "depth": self.depth, "wall_s": round(self.wall_s, 2), "returncode": self.returncode}
+        if self.coverage:
+            # -coverage 1: per action (distinct states found, states generated); an action that was never taken
+            # means whatever is claimed about it was never exercised on the model (vacuity, DESIGN section 7)
+            d["action_coverage"] = {k: list(v) for k, v in sorted(self.coverage.items())}
+            d["actions_never_taken"] = sorted(k for k, v in self.coverage.items() if v[1] == 0)
+        return d
 
 
 def _parse(res):
